@@ -103,10 +103,16 @@ ExtraDocs == <<
    Obj(<<T("GeometryCollection"), <<"geometries", Arr(<<Obj(<<T("MultiPoint"), C(Arr(<<>>))>>), Obj(<<T("Point"), C(P2(4,4))>>),
                                                            Obj(<<T("GeometryCollection"), <<"geometries", Arr(<<>>)>>>>), LineD, Obj(<<T("Point"), C(P2(5,2))>>)>>)>>>>),
    \* perfect rectangles with an out-of-range corner (AllowRects and RequireValid together), alone and nested
-   Obj(<<T("Polygon"), C(Arr(<<Arr(<<P2(1,1), P2(9,1), P2(9,4), P2(1,4), P2(1,1)>>)>>))>>),
+   \* (token 8 as latitude: out of range but moderate in every number table; token 9 is 1.8e308 in one table, where the
+   \* rectangle's area overflows and Rect and Polygon legitimately differ - not an option effect)
    Obj(<<T("Polygon"), C(Arr(<<Arr(<<P2(1,1), P2(3,1), P2(3,8), P2(1,8), P2(1,1)>>)>>))>>),
-   Obj(<<T("Feature"), <<"geometry", Obj(<<T("Polygon"), C(Arr(<<Arr(<<P2(1,1), P2(9,1), P2(9,4), P2(1,4), P2(1,1)>>)>>))>>)>>>>),
+   Obj(<<T("Polygon"), C(Arr(<<Arr(<<P2(1,4), P2(3,4), P2(3,8), P2(1,8), P2(1,4)>>)>>)), <<"id", Num(1)>>>>),
+   Obj(<<T("Feature"), <<"geometry", Obj(<<T("Polygon"), C(Arr(<<Arr(<<P2(1,1), P2(3,1), P2(3,8), P2(1,8), P2(1,1)>>)>>))>>)>>>>),
    Obj(<<T("GeometryCollection"), <<"geometries", Arr(<<PointD, Obj(<<T("Polygon"), C(Arr(<<Arr(<<P2(1,1), P2(3,1), P2(3,8), P2(1,8), P2(1,1)>>)>>))>>)>>)>>>>),
+   \* a ring that is a rectangle only if -0 and 0 are taken for the same number (tokens 2 and 0 in one number table): as a Rect it
+   \* would be written back with the other zero
+   Obj(<<T("Polygon"), C(Arr(<<Arr(<<P2(2,0), P2(4,0), P2(4,4), P2(0,4), P2(2,0)>>)>>))>>),
+   Obj(<<T("Polygon"), C(Arr(<<Arr(<<P2(0,2), P2(4,0), P2(4,4), P2(0,4), P2(0,2)>>)>>))>>),
    \* foreign members that look like coordinates but are out of range: validity is about positions only
    Obj(<<T("Point"), C(P2(1,2)), <<"bbox", Arr(<<Num(9), Num(9), Num(9), Num(9)>>)>>>>),
    Obj(<<T("Feature"), <<"bbox", Arr(<<Num(8), Num(8), Num(9), Num(9)>>)>>, <<"geometry", LineD>>, <<"properties", Obj(<<<<"coordinates", Arr(<<Num(9), Num(9)>>)>>>>)>>>>),
@@ -141,8 +147,19 @@ NearDocs == <<
    Obj(<<T("MultiPolygon"), C(Arr(<<Arr(<<Ring1>>), Arr(<<Arr(<<P2(0,0), P2(4,1), P2(4,4), P2(3,3)>>)>>)>>))>>),
    Obj(<<T("Feature"), <<"geometry", Obj(<<T("Polygon"), C(Arr(<<Arr(<<P3(0,1,2), P3(4,1,2), P3(4,4,2), P3(3,1,2)>>)>>))>>)>>>>)
 >>
+\* members named like the required member of ANOTHER type are foreign members, whatever their value (acceptance only: Mode "c07a";
+\* the pinned code does not carry them to the output, so the round-trip universe leaves them out - see the assumptions of C06)
+AlienDocs == <<
+   Obj(<<T("Point"), C(P2(1,2)), <<"geometries", Str("none")>>>>),
+   Obj(<<T("Feature"), <<"coordinates", Null>>, <<"geometry", PointD>>, <<"properties", Null>>>>),
+   Obj(<<T("LineString"), <<"features", Num(1)>>, <<"geometry", Null>>, C(Arr(<<P2(1,1), P2(2,3)>>))>>),
+   Obj(<<T("GeometryCollection"), <<"coordinates", Str("x")>>, <<"geometries", Arr(<<PointD>>)>>, <<"features", Obj(<<>>)>>>>),
+   Obj(<<T("FeatureCollection"), <<"geometries", True>>, <<"features", Arr(<<>>)>>, <<"coordinates", Obj(<<>>)>>, <<"geometry", Num(1)>>>>),
+   Obj(<<T("Polygon"), <<"geometry", Str("g")>>, C(Arr(<<Ring1>>)), <<"geometries", Null>>>>),
+   Obj(<<T("MultiPoint"), <<"features", Null>>, C(Arr(<<P2(1,2)>>))>>)
+>>
 NMutable == IF Mode = "c08" THEN Len(CoreDocs) + Len(ExtraDocs) ELSE Len(CoreDocs)
-BaseDocs == (IF Mode = "c08" THEN CoreDocs \o ExtraDocs \o BigDocs ELSE CoreDocs) \o DeepDocs \o NearDocs
+BaseDocs == (IF Mode = "c08" THEN CoreDocs \o ExtraDocs \o BigDocs ELSE CoreDocs) \o (IF Mode = "c07a" THEN AlienDocs ELSE <<>>) \o DeepDocs \o NearDocs
 \* (the last one: a JSON string whose CONTENT is a GeoJSON text - a string is not an object)
 Repl == <<Null, True, Num(1), Str("Nope"), Arr(<<>>), Obj(<<>>), Arr(<<Num(1)>>), Arr(<<Num(1), Num(2), Num(3), Num(4), Num(5)>>), P2(6,6),
           Str("{\"type\":\"Point\",\"coordinates\":[1,2]}")>>
